@@ -684,6 +684,16 @@ def replay_generic(payload, monitor=None, impl_env=None):
     if line.split(" ")[0] == "NETSAME":
         # adapter vs in-memory client on the same reply: the harness evaluates the equality itself
         build_harness("harness_net")
+        if "variants" in payload:
+            # one reply through several adapters / twins: all observations must be the same
+            rest = line.split(" ")[2:]
+            obs = {}
+            for k in payload["variants"]:
+                ad, kind = k.split("/")
+                l2 = " ".join(["NETSAME", ad, kind] + rest[1:])
+                obs[k] = run_lines(os.path.join(TARGET, "debug", "harness_net"), [l2], shards=1, env=dict(ENV, VERIF_NET_WATCHDOG="60"))[0]
+                print("%s: %s" % (k, obs[k][:1500]))
+            return 0 if len(set(obs.values())) == 1 and all(o.startswith("same") for o in obs.values()) else 1
         im = run_lines(os.path.join(TARGET, "debug", "harness_net"), [line], shards=1, env=dict(ENV, VERIF_NET_WATCHDOG="60"))[0]
         print("case : %s\nimpl : %s\nmodel: same" % (line[:3000], im[:3000]))
         return 0 if im.startswith("same") else 1
